@@ -346,3 +346,41 @@ func H_C06_close_target() {
 	verifAssert(!still, "C06.close-target.unregistered")
 	verifReach("C06.close-target.end")
 }
+
+// node objects shared by several pipelines of one type: each pipeline's traversal invokes them, so a node listed by k
+// registered pipelines is invoked k times by one Send, and the shared sink id is reported complete k times
+func H_C01_shared_nodes() {
+	b, _ := NewBroker()
+	f, s, f2 := &cNode{typ: NodeTypeFormatter}, &cNode{typ: NodeTypeSink}, &cNode{typ: NodeTypeFormatter}
+	b.RegisterNode("f", f)
+	b.RegisterNode("s", s)
+	b.RegisterNode("f2", f2)
+	k := 0
+	if nondetBool() {
+		b.RegisterPipeline(Pipeline{PipelineID: "p", EventType: "t", NodeIDs: []NodeID{"f", "s"}})
+		k++
+	}
+	if nondetBool() {
+		b.RegisterPipeline(Pipeline{PipelineID: "q", EventType: "t", NodeIDs: []NodeID{"f", "s"}})
+		k++
+	}
+	kf2 := 0
+	if nondetBool() {
+		b.RegisterPipeline(Pipeline{PipelineID: "r", EventType: "t", NodeIDs: []NodeID{"f2", "s"}})
+		kf2++
+	}
+	// the same ids under another type do not count
+	b.RegisterPipeline(Pipeline{PipelineID: "p", EventType: "other", NodeIDs: []NodeID{"f", "s"}})
+	verifAssume(k+kf2 > 0)
+	b.SetSuccessThreshold("t", k+kf2)
+	b.SetSuccessThresholdSinks("t", k+kf2)
+	st, err := b.Send(&vCtx{}, "t", "payload")
+	verifAssert(f.procs == k && f2.procs == kf2, "C01.shared.formatter-invoked-once-per-listing-pipeline")
+	verifAssert(s.procs == k+kf2, "C01.shared.sink-invoked-once-per-listing-pipeline")
+	verifAssert(len(st.complete) == k+kf2 && len(st.completeSinks) == k+kf2 && len(st.Warnings) == 0, "C02.shared.one-entry-per-pipeline")
+	for _, id := range st.complete {
+		verifAssert(id == "s", "C02.shared.complete-names-the-sink")
+	}
+	verifAssert(err == nil, "C02.shared.thresholds-met-no-error")
+	verifReach("C01.shared.end")
+}
